@@ -319,7 +319,9 @@ func (e errWriter) WriteError(ctx *resolve.Context, err error, res *resolve.Grap
 	if lw, ok := w.(*writer); ok {
 		ov, leave := lw.enter()
 		defer leave()
-		e.r.ctl.Log("w.werr", uint64(lw.slot), 0, map[string]any{"ov": ovField(lw, ov || len(lw.buf) > 0)})
+		// the gate inside the error write: the writing goroutine sits inside the writer (under writeMu in a correct tree)
+		e.r.ctl.At("w.werr.enter", uint64(lw.slot), 0, map[string]any{"ov": ovField(lw, ov || len(lw.buf) > 0)})
+		e.r.ctl.Log("w.werr", uint64(lw.slot), 0, map[string]any{"ov": ovField(lw, lw.inside.Load() > 1)})
 	}
 }
 
@@ -391,7 +393,23 @@ func oddFilter(fk string) *resolve.SubscriptionFilter {
 		// two arrays in one value: ErrInvalidSubscriptionFilterTemplate for every event that has the field
 		return &resolve.SubscriptionFilter{In: &resolve.SubscriptionFieldFilter{FieldPath: []string{"par"}, Values: []resolve.InputTemplate{{Segments: static("[1][2]")}}}}
 	}
+	in := func(field string, values ...[]resolve.TemplateSegment) *resolve.SubscriptionFilter {
+		f := &resolve.SubscriptionFieldFilter{FieldPath: []string{field}}
+		for _, v := range values {
+			f.Values = append(f.Values, resolve.InputTemplate{Segments: v})
+		}
+		return &resolve.SubscriptionFilter{In: f}
+	}
 	switch fk {
+	// IN with two value templates: the event matches only the SECOND one
+	case "in2-static":
+		return in("par", static("7"), static("1"))
+	case "in2-var":
+		return in("par", varSegment("seven"), varSegment("one"))
+	case "str2-var":
+		return in("sodd", varSegment("nope"), varSegment("word"))
+	case "notin2": // NOT{par IN (7, 0)}: an even event matches the second template and must be dropped
+		return &resolve.SubscriptionFilter{Not: in("par", static("7"), static("0"))}
 	case "num-var":
 		segs = varSegment("one")
 	case "arr-var":
@@ -406,7 +424,7 @@ func oddFilter(fk string) *resolve.SubscriptionFilter {
 	return &resolve.SubscriptionFilter{In: &resolve.SubscriptionFieldFilter{FieldPath: []string{field}, Values: []resolve.InputTemplate{{Segments: segs}}}}
 }
 
-const filterVariables = `{"one":1,"odds":[1,3,5],"yes":true,"no":false,"word":"odd"}`
+const filterVariables = `{"one":1,"seven":7,"odds":[1,3,5],"yes":true,"no":false,"word":"odd","nope":"nope"}`
 
 func plan(src resolve.SubscriptionDataSource, ctl *gate.Controller, slot int, c SubCfg, kv, fk string) *resolve.GraphQLSubscription {
 	input := triggerInput(kv, c.Key)
@@ -575,7 +593,7 @@ func (w *soloWriter) Error([]byte)                {}
 
 var parkPoints = map[string]bool{
 	"sub.close.begin": true, "sub.complete.checked": true, "sub.error.checked": true, "sub.hb.begin": true,
-	"sub.werr.begin": true, "sub.update.begin": true, "ds.load": true, "h.hook": true, "trig.start.begin": true, "trig.init.found": true,
+	"sub.werr.begin": true, "sub.update.begin": true, "ds.load": true, "h.hook": true, "w.werr.enter": true, "trig.start.begin": true, "trig.init.found": true,
 	"trig.done.begin": true, "shutdown.begin": true, "w.flush.enter": true,
 }
 
